@@ -98,6 +98,9 @@ class DiffOperator(operator.Operator, abc.ABC):
         """apply operator (without order1 and order2 differential operators)"""
         if not inplace:
             sm = sm.copy()
+        if sm.ndim < self.ndim:
+            # partial derivatives carried by a state matrix that grows at this operator
+            sm.expand(self.ndim)
         return self._apply(sm)
 
     def derive1(self, sm, param, inplace=False):
